@@ -347,6 +347,10 @@ func main() {
 		probeBlocks(os.Args[2:])
 		return
 	}
+	if len(os.Args) > 1 && os.Args[1] == "evictworker" {
+		evictWorker(os.Args[2:])
+		return
+	}
 	if len(os.Args) > 1 && os.Args[1] == "churnworker" {
 		churnWorker(os.Args[2:])
 		return
@@ -357,6 +361,11 @@ func main() {
 		sum.HarnessError(err.Error())
 		sum.Write(cfg.Out)
 		return
+	}
+	if os.Getenv("C11_ONLY") == "evict" { // debugging aid: the memory-rebalancing streams alone
+		evictStage(cfg, sum)
+		sum.Write(cfg.Out)
+		os.Exit(0)
 	}
 	installHooks()
 	n := 0
@@ -428,6 +437,8 @@ func main() {
 	if os.Getenv("VERIF_RACE_CHILD") == "" {
 		lockProgramStage(cfg, sum)
 		churnStage(cfg, sum)
+		// memory rebalancing (eviction / reload of micro indexes) between flushes, rotations and searches (evict.go)
+		evictStage(cfg, sum)
 	}
 	endGuard := stageGuard(cfg, sum, "free-running stress and concurrent first ingest")
 	stress(cfg, sum)
